@@ -4,8 +4,10 @@ and record which of the given checks catch it (applies the patch to /repo, runs 
 import json, os, shutil, subprocess, sys
 pid, k = sys.argv[1], sys.argv[2]
 checks = sys.argv[3:] or [pid]
-src = "/tmp/mut/%s/m%s" % (pid, k)
-dst = "/verif/seeded/%s-m%s" % (pid, k)
+base = os.environ.get("MUTDIR", "/tmp/mut")
+tag = os.environ.get("MUTTAG", "")            # e.g. "w2" for the second wave
+src = "%s/%s/m%s" % (base, pid, k)
+dst = "/verif/seeded/%s-%sm%s" % (pid, tag, k)
 os.makedirs(dst, exist_ok=True)
 for f in ("patch.diff", "demo.py", "notes.md"):
     shutil.copy(os.path.join(src, f), os.path.join(dst, f))
@@ -20,12 +22,12 @@ notes = open(os.path.join(src, "notes.md")).read()
 meta_path = os.path.join(dst, "meta.json")
 meta = json.load(open(meta_path)) if os.path.exists(meta_path) else {}
 meta.update({
-    "property": pid, "mutation": "m%s" % k, "origin": "written by an independent sub-agent that saw only the property text and a scratch worktree",
+    "property": pid, "mutation": "%sm%s" % (tag, k), "origin": "written by an independent sub-agent that saw only the property text and a scratch worktree",
     "confirmed_in_scratch_worktree": {"demo_exit_clean": conf["demo_clean_rc"], "demo_exit_with_change": conf["demo_mut_rc"],
                                       "suite_passed_with_change": conf["suite_passed"], "suite_failed_with_change": conf["suite_failed"],
                                       "command": "tools/confirm_mut.sh %s %s" % (pid, k)},
     "checks_run": {**meta.get("checks_run", {}), **res},
-    "command": "tools/try_patch.sh seeded/%s-m%s/patch.diff %s" % (pid, k, " ".join(checks)),
+    "command": "tools/try_patch.sh %s/patch.diff %s" % (dst[len("/verif/"):], " ".join(checks)),
 })
 json.dump(meta, open(meta_path, "w"), indent=1)
 print(pid, "m" + k, {c: (r["rc"], r["first_signature"][:60]) for c, r in res.items()})
